@@ -113,6 +113,9 @@ class PROP(PropCheck):
             for mode in MODES:
                 out.append(self.mk(cls, src, mode, "none", False, "ann\nbob\n" if cls == "input" else ""))
                 out.append(self.mk(cls, src, mode, "none", True, ""))
+            # every debug mode on every program (the way the source is supplied rotates)
+            for k, dbg in enumerate(DEBUGS[1:]):
+                out.append(self.mk(cls, src, MODES[k % len(MODES)], dbg, False, "ann\nbob\n" if cls == "input" else ""))
         return out
 
     def cases(self, rng, tier, scale=1):
@@ -131,8 +134,14 @@ class PROP(PropCheck):
         gen = [c for c in out if c.meta["cls"] == "gen"]
         if gen:
             res = C.run_harness("run", [(c.src, {}) for c in gen], 4000, 120, tag="C12pre")
-            bad = set(id(c) for c, r in zip(gen, res) if r is None or r.startswith(("BUDGET", "ABORT")))
+            bad = set(id(c) for c, r in zip(gen, res) if r is None or r.startswith(("BUDGET", "ABORT", "PANIC")))
             out = [c for c in out if id(c) not in bad]
+            # ... and the way the budgeted run ended classifies the program, so that the contract itself can be checked on it
+            for c, r in zip(gen, res):
+                if id(c) in bad:
+                    continue
+                c.meta["cls"] = ("ok" if r.startswith("OK") else "runtime" if r.startswith("RT:") else "wall" if r.startswith("EXIT")
+                                 else "lex" if r.startswith("LEXERR") else "parse" if r.startswith("PARSEERR") else "gen")
         return out
 
     def model_expr(self, case):
